@@ -676,6 +676,15 @@ def monitors(sc, obs):
                     facts["failures_observed"] += 1
                 else:
                     observed.add(n)
+        elif k == "stalled":
+            # work items handed to the pool that no worker picked up although the scheduler already waits for them: the
+            # pool is smaller than the number of nodes the scheduler counts as running (they are queued, not running)
+            who = [tnode.get(t) for t in e[2]]
+            for p_ in ("C04", "C06", "C08"):
+                bad(p_, "dispatched-node-got-no-worker", tickets=list(e[2]), nodes=who, maxc=maxc)
+            if outcome[0] == "exc":
+                # ... and the call has failed meanwhile: the queued node starts (if ever) after the failure was raised
+                bad("C14", "queued-node-starts-after-the-call-raised", tickets=list(e[2]), nodes=who)
         elif k == "wait":
             kind, mode, waited, released = e[2], e[3], e[4], e[5]
             if not waited:
